@@ -11,7 +11,12 @@ EMPH4 = """For this round favour, in this order: (a) ERROR, CLEANUP AND END-OF-S
 EMPH5 = """For this round favour, in this order: (a) DATA-DEPENDENT behaviour: the change misbehaves only for particular CONTENT - byte values that also mean something to a parser on the path (CR, LF, NUL, 0x16, '%', a line that looks like a chunk size, a header block or a frame header inside a body), values at the edge of a numeric field (lengths, ports, window sizes, status codes, priorities, indices near 2^31 / 2^32 / 2^53 / 2^63, negative or zero), names that differ only in case, whitespace, a trailing dot or Unicode normalisation, empty values and repeated fields; (b) TIME: deadlines, idle timeouts, expiry, validity windows, retries, 'now' read twice, ordering of two timestamps, durations that are zero, negative or very large (use small configured durations so that a demonstration runs in seconds); (c) INTERPLAY with a neighbouring feature that is normally tested separately (logging + shaping + MITM + h2 + filters + downstream proxy + API endpoints together: the change is in the seam between two of them); (d) RESOURCE BOOKKEEPING that only shows after many operations or at teardown (goroutines, file descriptors, connections, map entries, buffers, timers that are never stopped or are stopped twice); (e) an 'obviously safe' CLEAN-UP: removing a seemingly redundant copy, lock, nil check, flush, Close, bounds check or default case. The change must still be a clear violation of the property as stated - not a matter of interpretation, and its trigger must be something a legitimate caller or peer may do (no reconfiguration of a proxy while it serves traffic, no concurrent use of types the unchanged tree does not synchronise).
 
 Also: while reading the code, note anything in the UNCHANGED tree that looks to you like an existing violation of this property (a hang, a leak, a crash, a wrong result for some legal input). List such observations at the end of your final message under 'Observations about the unchanged tree' - unverified is fine, one or two sentences each with the code site; do not spend more than a few minutes on them."""
-EMPH = {"4": EMPH4, "5": EMPH5}.get(rnd, EMPH5)
+EMPH6 = """This round has TWO parts.
+
+PART 1 (about a third of your effort): TWO seeded changes (not three) as described below. Favour mechanisms that none of the earlier rounds used: look at the list above and go where it has not been - another file, another feature, another kind of trigger. Legitimate triggers only (no reconfiguration of a proxy while it serves traffic, no concurrent use of types the unchanged tree does not synchronise).
+
+PART 2 (about two thirds of your effort): hunt for EXISTING violations of this property in the UNCHANGED tree. Earlier rounds' side remarks led to two dozen confirmed defects (examples of what was real: a hang when a peer goes away in a particular state; bytes lost or added at a boundary; a legal input answered with an error; a resource never released; state left behind by the previous exchange on the same connection; an option combination nobody tested). Read the code the anchors point to and its callers and helpers with that eye, think about unusual but LEGAL inputs, sequences, timings and option combinations, and TRY your suspicions: for each one write a small Go test (exported API or package-internal, no changes to library code) that FAILS on the unchanged tree because the property is violated, and PASSES if the library behaved as the property says. Deliver each confirmed one as {out}/obs/<n>/ with the *_test.go, the package directory to copy it to, the command, the observed output, and three lines on why it violates the property as stated and what a minimal repair would be (do not implement repairs). Up to five; quality over quantity; a suspicion you could not confirm goes into your final message in two sentences, not into obs/. Behaviour that is merely unspecified, a matter of taste, or net/http's own doing does not count."""
+EMPH = {"4": EMPH4, "5": EMPH5, "6": EMPH6}.get(rnd, EMPH5)
 for p in props:
     pid = p["id"]
     prev = []
@@ -43,19 +48,23 @@ This is round {rnd}. Earlier rounds already produced changes that manifest under
 
 {EMPH}
 
-Your task: produce THREE different changes to the library's non-test source files, each of which breaks this property, such that with the change applied
+Your task{{PART}}: produce {{NCH}} different changes to the library's non-test source files, each of which breaks this property, such that with the change applied
   (1) `go build ./...` still succeeds,
   (2) the existing test-suite still passes unedited: run `go test -vet=off -count=1 -timeout 300s ./...` (about 40 s) - every package must be ok,
   (3) a demonstration you write (a Go test file, or a small program) FAILS with the change and PASSES on the unchanged tree.
-The three changes must have different root causes (different code sites or mechanisms), not variations of one edit.
+The changes must have different root causes (different code sites or mechanisms), not variations of one edit.
 
-What makes a good change: it looks like a plausible slip a maintainer could make (a refactoring, an 'optimisation', a reordered statement, a wrong boundary, a dropped flush/lock/close, a condition that is right for the common case) - not sabotage with magic constants or special-cased inputs. Prefer changes that need something SPECIFIC to manifest: a particular interleaving or timing, a fault at a particular point, a multi-step sequence of operations, an unusual but legal input (a size just past a buffer, a second request on a connection, a repeated header, a rarely used option), or two cooperating sites that each look fine alone. Avoid changes that ordinary single-request use would expose at once. At least one of the three should be subtle in this sense.
+What makes a good change: it looks like a plausible slip a maintainer could make (a refactoring, an 'optimisation', a reordered statement, a wrong boundary, a dropped flush/lock/close, a condition that is right for the common case) - not sabotage with magic constants or special-cased inputs. Prefer changes that need something SPECIFIC to manifest: a particular interleaving or timing, a fault at a particular point, a multi-step sequence of operations, an unusual but legal input (a size just past a buffer, a second request on a connection, a repeated header, a rarely used option), or two cooperating sites that each look fine alone. Avoid changes that ordinary single-request use would expose at once. At least one of them should be subtle in this sense.
 
-Put a stub go.mod into {wt}/{out}/ so that ./... does not descend into it. Deliverables, for i = 1, 2, 3, in {wt}/{out}/<i>/ :
+Put a stub go.mod into {wt}/{out}/ so that ./... does not descend into it. Deliverables, for i = {{IDX}}, in {wt}/{out}/<i>/ :
   - patch.diff  : `git diff` of the library change only (no test files, no go.sum), applicable with `git apply` on the unchanged tree;
   - the demonstration file(s), named *_test.go, plus in README.md the exact place to copy it to (package directory) and the exact command to run it (say so if it needs -race);
   - README.md  : which clause of the property the change breaks, why the existing tests do not notice, a section headed '## What it needs to manifest' (input shape / sequence / timing), and the observed output of the demonstration with and without the change.
-Before finishing, for each change start from a clean tree (`git checkout -- . && git clean -fd -e {out}`), apply patch.diff, run build + full test-suite + the demonstration (must fail), then revert and run the demonstration again (must pass). Leave the worktree clean except for {out}/. Your final message: a short table of the three changes (one line each: file, what breaks, what it needs to manifest).
+Before finishing, for each change start from a clean tree (`git checkout -- . && git clean -fd -e {out}`), apply patch.diff, run build + full test-suite + the demonstration (must fail), then revert and run the demonstration again (must pass). Leave the worktree clean except for {out}/. Your final message: a short table of the changes (one line each: file, what breaks, what it needs to manifest){{FINAL}}.
 """
+    if rnd == "6":
+        txt = txt.replace("{PART}", " for PART 1").replace("{NCH}", "TWO").replace("{IDX}", "1, 2").replace("{FINAL}", ", then the list of confirmed observations of PART 2 (one line each with the obs/<n> directory) and the unconfirmed suspicions").replace("{out}", out)
+    else:
+        txt = txt.replace("{PART}", "").replace("{NCH}", "THREE").replace("{IDX}", "1, 2, 3").replace("{FINAL}", "")
     open("/tmp/seed%s-prompt-%s.txt" % (rnd, pid), "w").write(txt)
 print("wrote", len(props), "prompts")
